@@ -463,6 +463,14 @@ def check_matrix(ctx, spec):
                 ('take_rows+take_columns', tab.take_rows(rsel).take_columns(csel), both, len(csel)),
                 ('take_columns+take_rows', tab.take_columns(csel).take_rows(rsel), both, len(csel)),
             ]
+            if rsel:  # a selection of a selection (positions refer to the intermediate table, not to the original one)
+                again = list(range(len(rsel) - 1, -1, -1))
+                steps.append(('take_rows+take_rows', tab.take_rows(rsel).take_rows(again), [by_rows[i] for i in again], ncols))
+            if csel:
+                again = list(range(len(csel) - 1, -1, -1))
+                steps.append(
+                    ('take_columns+take_columns', tab.take_columns(csel).take_columns(again), [[row[j] for j in again] for row in by_cols], len(csel))
+                )
             for what, got, exp, width in steps:
                 diff = table_diff(got, exp, width)
                 if diff:
